@@ -236,6 +236,15 @@ theorem get_uses_closest (e : Env) (w : World) (scopes : List String) (st : Stri
           all_goals (try (rcases hc with rfl | rfl)) <;> (try subst hc) <;> simpa [Contact.source] using hu.symm
       · split at hc <;> simp at hc <;> subst hc <;> simp [Contact.source] at hu
 
+/-- the tie-break: among the listed sources (duplicates dropped) that are exactly as close as the chosen one, the
+chosen one is the first permitted in the listed order (Python's sort is stable) -/
+theorem get_tie_break (e : Env) (scopes : List String) (locs : List Src) (s : Src)
+    (hf : (getSources e locs).find? (permitted "own" e scopes) = some s) :
+    ((dedup locs).filter (fun t => proximity e t == proximity e s)).find? (permitted "own" e scopes) = some s := by
+  have h := find_filter_key (key := proximity e) hf
+  unfold getSources at h
+  rwa [filter_sortDesc] at h
+
 /-- if no listed source is permitted, `get` uses the transport not at all -/
 theorem get_none_permitted (e : Env) (w : World) (scopes : List String) (st : String) (locs : List Src)
     (h : ∀ s ∈ locs, ¬ Permitted e scopes s) : ∀ c ∈ getOp e w scopes st locs, c.source = none := by
@@ -527,6 +536,9 @@ example : getOp exEnv exWorld ["own", "swarm", "cluster", "shared"] "s" exLocs
   decide
 example : (⟨"", "/shared"⟩ : Src) ∈ exLocs ∧ Permitted exEnv ["own", "swarm", "cluster", "shared"] ⟨"", "/shared"⟩ := by
   decide
+/-- `get_tie_break`: two equally close sources on the other host — the one listed first is used -/
+example : getOp exEnv exWorld ["swarm"] "s" [⟨"net3", "/b"⟩, ⟨"", "/own"⟩, ⟨"net3", "/a"⟩]
+    = [.localShow, .poolShow ⟨"net3", "/b"⟩, .poolCompare ⟨"net3", "/b"⟩, .poolGet ⟨"net3", "/b"⟩] := by decide
 /-- with `shared` disabled the next closest permitted source is the worker on the other host -/
 example : getOp exEnv exWorld ["swarm", "cluster"] "s" exLocs
     = [.localShow, .poolShow ⟨"net3", "/own"⟩, .poolCompare ⟨"net3", "/own"⟩, .poolGet ⟨"net3", "/own"⟩] := by decide
